@@ -545,6 +545,53 @@ def run(ctx):  # noqa: C901, PLR0912, PLR0915
     from . import common
     common.index_lists_not_mutated_while_iterated(ctx, 'C02.R4')
     common.copies_are_deep(ctx, 'C02.R2')   # published content changes only through a commit that counts the versions up
+    # the transaction files a state by the kind flags of the STATE class and looks it up again by the kind flags of its DESCRIPTOR
+    # class: the two classes of one kind agree on every flag they both have (a state class that inherits another kind's flags
+    # is filed where _update_corresponding_state never looks - its DescriptorVersion is not carried along)
+    SC_, DC_ = 'sdc11073.mdib.statecontainers.', 'sdc11073.mdib.descriptorcontainers.'
+    n_pairs = 0
+    for q_, ci_ in sorted(repo.classes.items()):
+        if not q_.startswith(SC_) or not ci_.name.endswith('StateContainer'):
+            continue
+        dq = DC_ + ci_.name[:-len('StateContainer')] + 'DescriptorContainer'
+        if dq not in repo.classes:
+            continue
+        n_pairs += 1
+        diff = []
+        for flag in ('is_metric', 'is_realtime_sample_array_metric', 'is_alert', 'is_component', 'is_operational', 'is_context',
+                     'is_system_context', 'is_alert_signal', 'is_alert_condition'):
+            sv, _ = repo.class_attr(q_, flag + '_state')
+            dv, _ = repo.class_attr(dq, flag + '_descriptor')
+            if sv is None or dv is None:
+                continue
+            if not (isinstance(sv, ast.Constant) and isinstance(dv, ast.Constant) and sv.value == dv.value):
+                diff.append(f'{flag}: state {unparse(sv)} / descriptor {unparse(dv)}')
+        ctx.ob('C02.R4', f'{ci_.name}: kind flags agree with the descriptor class', not diff,
+               f'{ci_.name} and its descriptor class agree on their kind flags' if not diff else
+               f'{ci_.name} and its descriptor class disagree ({diff}): a state written together with its re-created descriptor is '
+               f'filed under one kind and looked up under the other, its DescriptorVersion stays behind the descriptor', where=q_,
+               line=ci_.node.lineno)
+    ctx.floor('C02.R4', n_pairs, 15, 'state / descriptor class pairs')
+    # ... and context states are looked up by the key they were filed under (their own Handle)
+    ucs = repo.func(f'{TR}.DescriptorTransaction._update_corresponding_state')
+    for lp in [x for x in walk_no_nested(ucs.node) if isinstance(x, ast.For) and isinstance(x.target, ast.Name) and
+               'context_states' in unparse(x.iter) + ''.join(unparse(v) for v in local_assignments(ucs.node).get(unparse(x.iter), []))]:
+        gets = [c for b in lp.body for c in ast.walk(b) if isinstance(c, ast.Call) and call_name(c) == 'get' and c.args and
+                isinstance(c.args[0], ast.Attribute) and unparse(c.args[0].value) == lp.target.id]
+        wrong = [unparse(c)[:60] for c in gets if c.args[0].attr != 'Handle']
+        ctx.ob('C02.R4', 'context state updates are looked up by state handle', bool(gets) and not wrong,
+               '_update_corresponding_state finds the transaction item of a context state under the state handle' if gets and not wrong
+               else f'_update_corresponding_state looks context state updates up with {wrong}: the items are filed under the state '
+               f'Handle - the lookup never hits, the item is replaced by a copy of the MDIB state and the update (a disassociation) is lost',
+               fi=ucs, node=lp)
+    ne_ = repo.func('sdc11073.mdib.providermdib.ProviderEntityGetter.new_entity')
+    plook = [c for c in calls_in(ne_.node, 'get_one') if c.args and 'parent' in unparse(c.args[0])]
+    tolerant = [unparse(c)[:60] for c in plook if any(k.arg == 'allow_none' and not (isinstance(k.value, ast.Constant) and k.value.value is False)
+                                                     for k in c.keywords) or len(c.args) > 1]
+    ctx.ob('C02.R4', 'new_entity needs an existing parent', bool(plook) and not tolerant,
+           'new_entity looks the parent up with get_one (KeyError for a handle that does not exist)' if plook and not tolerant else
+           f'new_entity tolerates a parent handle that does not exist ({tolerant or "no parent lookup"}): the new descriptor is '
+           f'committed below a handle that is not in the MDIB (an orphan), the parent version bump is skipped silently', fi=ne_)
     # a descriptor enters a transaction only with a parent chain that ends at an MDS: add_descriptor finds the source MDS by
     # walking up the tree (get_mds_descriptor raises for a parent handle that does not exist) - on every path of set_source_mds
     ssm = repo.func('sdc11073.mdib.providermdibxtra.ProviderMdibMethods.set_source_mds')
